@@ -234,7 +234,7 @@ def shrink(case):
         yield dict(case, g=h)
 
 
-LEVEL_TEXT = ("Coq proof + correspondence. Unbounded theorems (all well-formed graphs): valid_mag_local (valid_mag_model = no undirected "
+LEVEL_TEXT = ("Coq proof + correspondence. ALL SIZES since round 4: maximal_is_separable / maximal_is_separable_all (is_maximal_model iff every non-adjacent pair is m-separated by some set of other nodes, for every graph with directed and bidirected edges and acyclic directed layer, bows and non-ancestral graphs included) and valid_mag_full (valid_mag_model iff the four clauses of the property text, path-level msep). Further unbounded theorems (all well-formed graphs): valid_mag_local (valid_mag_model = no undirected "
               "edge /\\ no bow /\\ no directed cycle /\\ no bidirected edge between a node and a proper ancestor /\\ is_maximal_model), "
               "undirected_rejected, has_adc_gap (on acyclic bow-free graphs has_adc = False iff ancestral; has_adc_bow_missed: without the "
               "one-edge-per-pair scan the bow a->b, a<->b is missed). Bounded theorems, kernel computation over ALL ADMGs (bows allowed) "
@@ -245,7 +245,8 @@ LEVEL_TEXT = ("Coq proof + correspondence. Unbounded theorems (all well-formed g
               "by correspondence on the cases of `rule`.")
 LEVEL_NOTE = ("is_maximal_model uses C06's repaired inducing-path search (exact by C06.inducing_exact); on the unpatched /repo the shared "
               "never-un-marked visited set makes is_maximal/valid_mag depend on neighbour order from 5 nodes on (perm5 stream: 60 of 240 "
-              "relabellings answer True for a non-maximal graph) - fix proposal fixes/C06-shared-visited.patch. The full statement "
-              "(Spec.maximal_is_separable_stmt, Richardson-Spirtes) is proved only to n = 4. is_maximal is compared only on graphs "
+              "relabellings answer True for a non-maximal graph) - fix proposal fixes/C06-shared-visited.patch. The full statements "
+              "(Spec.maximal_is_separable_stmt, Spec.valid_mag_full_stmt) are proved for all sizes in C07/Unbounded.v (from C06/Unbounded.v); "
+              "the n<=4 kernel computations are kept as independent checks. is_maximal is compared only on graphs "
               "without undirected edges and with acyclic directed layer (elsewhere the code raises or the notion is undefined).")
 TECHNIQUE = "Coq proof (local part unbounded; maximality = separability by vm_compute for n<=4, 16 shards) + extracted-model correspondence"
